@@ -3,7 +3,7 @@
 use crate::value::RV;
 
 pub fn int_pool() -> Vec<i64> {
-    let mut v: Vec<i64> = vec![0, 1, -1, 2, -2, 3, 7, 63, 64, 65];
+    let mut v: Vec<i64> = vec![0, 1, -1, 2, -2, 3, 7, 10, 63, 64, 65, 100, 1000];
     for p in [31u32, 32, 53, 62] {
         let x = 1i64 << p;
         v.extend_from_slice(&[x, -x]);
@@ -54,13 +54,26 @@ pub fn float_pool() -> Vec<f64> {
         -745.0,
         3.0,
         64.0,
+        10.0,
+        1000.0,
+        0.001,
+        std::f64::consts::E,
     ];
     v.dedup_by(|a, b| a.to_bits() == b.to_bits());
     v
 }
 
 pub fn string_pool() -> Vec<&'static str> {
-    vec!["", "a", "abc", " a ", "A", "ß", "äb", "日本", "a\"b\\c", "//", "/*", "1", "İ", "a\u{0301}", "😀x"]
+    vec![
+        "", "a", "abc", " a ", "A", "ß", "äb", "日本", "a\"b\\c", "//", "/*", "1", "İ", "a\u{0301}", "😀x",
+        // word-final capital sigma: str::to_lowercase is context dependent
+        "ΟΔΟΣ",
+        // long values whose renderings put multi-byte characters at every byte alignment
+        "éééééééééééééééééééééééééééééééééééééééééééééééééééééééééééé",
+        "xééééééééééééééééééééééééééééééééééééééééééééééééééééééééééé",
+        "漢漢漢漢漢漢漢漢漢漢漢漢漢漢漢漢漢漢漢漢漢漢漢漢漢漢漢漢漢漢漢漢漢漢漢漢漢漢漢漢",
+        "ab漢漢漢漢漢漢漢漢漢漢漢漢漢漢漢漢漢漢漢漢漢漢漢漢漢漢漢漢漢漢漢漢漢漢漢漢漢漢漢",
+    ]
 }
 
 pub fn tuple_pool() -> Vec<RV> {
